@@ -53,7 +53,11 @@ pub fn configs(prop: &str, tier: Tier, seed: u64) -> Vec<Entry> {
         "C02" => crate::props::c02::configs(tier, seed),
         "C03" => crate::props::c02::configs_c03(tier, seed),
         "C05" => crate::props::c01::configs_c05a(tier, seed),
-        "C06" => crate::props::c02::configs_c06(tier, seed),
+        "C06" => {
+            let mut v = crate::props::c02::configs_c06(tier, seed);
+            v.extend(crate::props::c02::configs_c06_kernel());
+            v
+        }
         "C07" => crate::props::c07::configs(tier, seed),
         "C08" => crate::props::c08::configs(tier, seed),
         "C09" => crate::props::c09::configs(tier, seed),
